@@ -2,6 +2,7 @@ import Mrpro.Model.Proto
 import Mrpro.Model.OpsND
 import Mrpro.Model.Fourier
 import Mrpro.Model.AlgebraExec
+import Mrpro.Model.CG
 open Lean M M.Proto
 
 def getTrajComp (j : Json) (k : String) : Except String TrajComp := do
@@ -74,6 +75,17 @@ partial def parseExpr (j : Json) : Except String (Expr CRat) := do
   | "adj" => pure (.adj (← parseExpr (← j.getObjVal? "a")))
   | "gram" => pure (.gram (← parseExpr (← j.getObjVal? "a")))
   | _ => throw s!"expr tag {t}"
+
+/-- complex vectors as a *real* inner-product space: `dot u v = Re ∑ conj(u_i) v_i`, real scalars -/
+def arrOps : VecOps Rat (Array CRat) where
+  add := fun u v => Array.zipWith (· + ·) u v
+  sub := fun u v => Array.zipWith (· - ·) u v
+  smul := fun c v => v.map (fun z => ⟨c * z.re, c * z.im⟩)
+  dot := fun u v => (Array.zipWith (fun a b => a.re * b.re + a.im * b.im) u v).foldl (· + ·) 0
+
+def traceJson (t : List (CGTrace (Array CRat))) : Json :=
+  Json.arr (t.map (fun e => Json.mkObj [("x", cratsJson e.x.toList), ("r", cratsJson e.r.toList),
+    ("k", Json.num (JsonNumber.fromNat e.k))])).toArray
 
 /-- one structural linear operator (forward or adjoint code path) on exact complex data -/
 def linop (j : Json) (x : Tensor CRat) : Except String (Except ErrKind (Tensor CRat)) := do
@@ -154,6 +166,21 @@ def handle (j : Json) : Except String Json := do
       if which == "build" then pure (Json.mkObj [("build", cratsJson ((List.range n).map r1))])
       else if which == "den" then pure (Json.mkObj [("den", cratsJson ((List.range n).map r2))])
       else pure (Json.mkObj [("build", cratsJson ((List.range n).map r1)), ("den", cratsJson ((List.range n).map r2))])
+  | "cg" =>
+      let n ← getNat j "n"
+      let hm := (← getCRats j "H").toArray
+      let b := (← getCRats j "b").toArray
+      let x0 ← match j.getObjVal? "x0" with
+        | .ok Json.null | .error _ => pure none
+        | .ok _ => do pure (some (← getCRats j "x0").toArray)
+      let maxIter ← getNat j "max_iter"
+      let tol2 ← match j.getObjVal? "tol2" with
+        | .ok Json.null | .error _ => pure none
+        | .ok _ => do match parseRat (← getStr j "tol2") with | some r => pure (some r) | none => throw "tol2"
+      let Hop := fun (v : Array CRat) => ofFnN n (matVec n (fun g => hm.getD g 0) (toFn v))
+      match cgRun arrOps Hop b x0 maxIter tol2 with
+      | .ok x reason tr => pure (Json.mkObj [("status", Json.str "ok"), ("x", cratsJson x.toList), ("reason", Json.str reason), ("trace", traceJson tr)])
+      | .nan k tr => pure (Json.mkObj [("status", Json.str "nan"), ("k", Json.num (JsonNumber.fromNat k)), ("trace", traceJson tr)])
   | "norm_dims" =>
       let ndim ← getNat j "ndim"; let dims ← getInts j "dims"
       pure (match dims.mapM (normIndex ndim) with
